@@ -489,6 +489,14 @@ def build_case(rng, n, edges, variant):
         mods.insert(rng.randint(0, len(mods)), pin)
         if rng.random() < 0.2 and len(names) > 1:
             pin['scan'].append(names[0])          # yields a module twice
+        if rng.random() < 0.5:
+            # a declared module uses a module that only the Pinata produces (declared before or after the Pinata)
+            users = [m for m in mods if m['cls'] == 'L' and 'a4' not in [a[0] for a in m['atts']]]
+            if users:
+                u = rng.choice(users)
+                u['atts'].append(['a4', rng.choice(names), True, 0])
+                if rng.random() < 0.5:
+                    u[rng.choice(['te', 'ti'])].append('a4')
     elif variant == 'slow' and mods:
         for m in rng.sample(mods, min(len(mods), rng.choice([1, 1, 2]))):
             m['delay'] = rng.choice([4, 100, 100])
